@@ -49,13 +49,14 @@ func (s *setSubj[T]) make(vs ...T) sets.Set[T] {
 	panic("unknown set kind " + s.cfg.Kind)
 }
 
-func (s *setSubj[T]) Kind() string   { return s.cfg.Kind }
-func (s *setSubj[T]) Family() string { return "set" }
-func (s *setSubj[T]) Config() Cfg    { return s.cfg }
-func (s *setSubj[T]) Real() any      { return s.s }
-func (s *setSubj[T]) IO() jsonIO     { return s.s.(jsonIO) }
-func (s *setSubj[T]) ModelSize() int { return len(s.m) }
-func (s *setSubj[T]) Drain() string  { return "" }
+func (s *setSubj[T]) SetScribble(b bool) { s.scribble = b }
+func (s *setSubj[T]) Kind() string       { return s.cfg.Kind }
+func (s *setSubj[T]) Family() string     { return "set" }
+func (s *setSubj[T]) Config() Cfg        { return s.cfg }
+func (s *setSubj[T]) Real() any          { return s.s }
+func (s *setSubj[T]) IO() jsonIO         { return s.s.(jsonIO) }
+func (s *setSubj[T]) ModelSize() int     { return len(s.m) }
+func (s *setSubj[T]) Drain() string      { return "" }
 func (s *setSubj[T]) Fresh() Subject {
 	n := newSetSubj(s.cfg, s.d, s.calls != nil)
 	n.scribble = s.scribble
@@ -401,12 +402,12 @@ func setEnum[T comparable](s sets.Set[T]) *idxEnumA[T] {
 	switch s := s.(type) {
 	case *treeset.Set[T]:
 		return &idxEnumA[T]{s,
-			func(f func(int, T) bool) (containers.Container[T], func(...T)) { r := s.Select(f); return r, r.Add },
-			func(f func(int, T) T) (containers.Container[T], func(...T)) { r := s.Map(f); return r, r.Add }}
+			func(f func(int, T) bool) any { return s.Select(f) },
+			func(f func(int, T) T) any { return s.Map(f) }}
 	case *linkedhashset.Set[T]:
 		return &idxEnumA[T]{s,
-			func(f func(int, T) bool) (containers.Container[T], func(...T)) { r := s.Select(f); return r, r.Add },
-			func(f func(int, T) T) (containers.Container[T], func(...T)) { r := s.Map(f); return r, r.Add }}
+			func(f func(int, T) bool) any { return s.Select(f) },
+			func(f func(int, T) T) any { return s.Map(f) }}
 	}
 	return nil
 }
